@@ -28,7 +28,7 @@ PROPERTY = "C14"
 RULE = (
     "case = generated module (placement blocks in generated order with generated constants: module-level "
     "function, method of a nested class, method, function inside a function, function two functions deep, "
-    "decorated function) x history (<=15 quick / <=40 thorough ops) of {activate probe by name | by reference, "
+    "decorated function, a method and a nested function sharing their bare names with module-level functions) x history (<=15 quick / <=40 thorough ops) of {activate probe by name | by reference, "
     "deactivate innermost, call, resolve reference} x codefind lookup regime (gc scan / cache). evaluations = "
     "operations applied. Non-trivial = a resolve or an activation by reference happens while >=1 other probe on "
     "the same function is active; distinct by (module text, history, regime)."
@@ -84,6 +84,23 @@ def deep():
 
 leaf = deep()
 ''',
+    "coll": '''
+class Coll:
+    def top(self, x):
+        a = x + {K}
+        return a
+
+
+def holder():
+    def dec(x):
+        a = x + {K2}
+        return a
+
+    return dec
+
+
+hdec = holder()
+''',
     "dec": '''
 @rec
 def dec(x):
@@ -107,7 +124,7 @@ def rec(fn):
     return wrapper
 '''
 
-TARGETS = ["top", "meth", "om", "inner", "leaf", "dec", "maker", "deep"]
+TARGETS = ["top", "meth", "om", "inner", "leaf", "dec", "maker", "deep", "ctop", "hdec"]  # ctop/hdec share their bare names with top/dec
 PROBE_ONLY = {"maker", "deep"}  # calling them again would create a second live closure
 
 _DIR = None
@@ -134,7 +151,7 @@ def build_module(order, ks):
     # codefind, not about ptera)
     text = "\n" * (64 * _N[0]) + HEADER
     for b in order:
-        text += BLOCKS[b].format(K=ks[b], K2=ks["om"])
+        text += BLOCKS[b].format(K=ks["ctop"] if b == "coll" else ks[b], K2=ks["hdec"] if b == "coll" else ks["om"])
     path = os.path.join(_pkgdir(), name + ".py")
     with open(path, "w") as f:
         f.write(text)
@@ -157,28 +174,35 @@ class World:
         self.ks = ks
         self.outer = mod.Outer() if hasattr(mod, "Outer") else None
         self.innerobj = mod.Outer.Inner() if hasattr(mod, "Outer") else None
+        self.present = {t for t in TARGETS if self._has(t)}  # fixed at import time
 
     def has(self, t):
+        return t in self.present
+
+    def _has(self, t):
         return {"top": "top", "meth": "Outer", "om": "Outer", "inner": "inner", "leaf": "leaf", "dec": "dec",
-                "maker": "maker", "deep": "deep"}[t] in vars(self.mod)
+                "maker": "maker", "deep": "deep", "ctop": "Coll", "hdec": "hdec"}[t] in vars(self.mod)
 
     def real(self, t):
         """The function object created by the def."""
         m = self.mod
         return {"top": lambda: m.top, "meth": lambda: m.Outer.Inner.meth, "om": lambda: m.Outer.om,
                 "inner": lambda: m.inner, "leaf": lambda: m.leaf, "dec": lambda: m.REG["dec"],
-                "maker": lambda: m.maker, "deep": lambda: m.deep}[t]()
+                "maker": lambda: m.maker, "deep": lambda: m.deep, "ctop": lambda: m.Coll.top,
+                "hdec": lambda: m.hdec}[t]()
 
     def handle(self, t):
         """What a user would pass to refstring()."""
         m = self.mod
         return {"top": lambda: m.top, "meth": lambda: m.Outer.Inner.meth, "om": lambda: m.Outer.om,
                 "inner": lambda: m.inner, "leaf": lambda: m.leaf, "dec": lambda: m.dec,
-                "maker": lambda: m.maker, "deep": lambda: m.deep}[t]()
+                "maker": lambda: m.maker, "deep": lambda: m.deep, "ctop": lambda: m.Coll.top,
+                "hdec": lambda: m.hdec}[t]()
 
     def name_selector(self, t):
         return {"top": "top > a", "meth": "Outer.Inner.meth > a", "om": "Outer.om > a", "inner": "inner > a",
-                "leaf": "leaf > a", "dec": "dec > a", "maker": "maker > a", "deep": "deep > a"}[t]
+                "leaf": "leaf > a", "dec": "dec > a", "maker": "maker > a", "deep": "deep > a",
+                "ctop": "Coll.top > a", "hdec": "hdec > a"}[t]
 
     def call(self, t, x):
         m = self.mod
@@ -186,6 +210,8 @@ class World:
             return self.innerobj.meth(x)
         if t == "om":
             return self.outer.om(x)
+        if t == "ctop":
+            return m.Coll().top(x)
         return getattr(m, t)(x)
 
 
@@ -344,11 +370,12 @@ def strategy(max_ops):
     def cases(draw):
         order = draw(st.permutations(sorted(BLOCKS)))
         order = list(order)[: draw(st.integers(2, len(order)))]
-        ks = {t: draw(st.integers(1, 50)) * 10 + i for i, t in enumerate(TARGETS[:6])}
+        ks = {t: draw(st.integers(1, 40)) * 20 + i for i, t in enumerate(["top", "meth", "om", "inner", "leaf", "dec", "ctop", "hdec"])}
         # bias: operate mostly on one or two targets so that probes overlap
         focus = draw(st.one_of(
             st.lists(tgt, min_size=1, max_size=2),
-            st.sampled_from([["inner", "maker"], ["leaf", "deep"], ["meth", "om"], ["leaf", "deep", "maker"]]),
+            st.sampled_from([["inner", "maker"], ["leaf", "deep"], ["meth", "om"], ["leaf", "deep", "maker"],
+                             ["top", "ctop"], ["dec", "hdec"]]),
         ))
         ops = draw(st.lists(op, min_size=3, max_size=max_ops))
         ops = [(o[0], focus[hash(o) % len(focus)], *o[2:]) if len(o) > 1 and draw(st.integers(0, 2)) else o for o in ops]
